@@ -12,8 +12,9 @@ EXTENDS Scheduler, Json
 VARIABLES l,        \* next line to consume
           pend,     \* goroutine -> pending API call
           relRet,   \* tasks whose Release has returned (ret line consumed) and no Schedule call line since
-          lateT     \* <<t, sf>> of start lines consumed while t \in relRet
-tvars == <<l, pend, relRet, lateT>>
+          lateT,    \* <<t, sf>> of start lines consumed while t \in relRet
+          ck        \* workers whose ckpt line was consumed and that have not yet reached their receive
+tvars == <<l, pend, relRet, lateT, ck>>
 allvars == <<vars, tvars>>
 
 Trace == ndJsonDeserialize("trace.ndjson")
@@ -25,7 +26,7 @@ IsLine(k) == l <= Len(Trace) /\ Trace[l].ev = k
 TInit == /\ TLCSet(1, 0)
          /\ Trace[1].ev = "prof"
          /\ InitWith(ProfOf(Trace[1]))
-         /\ l = 2 /\ pend = [g \in G |-> NoCall] /\ relRet = {} /\ lateT = {}
+         /\ l = 2 /\ pend = [g \in G |-> NoCall] /\ relRet = {} /\ lateT = {} /\ ck = {}
 
 \* `clean` of a pending Release(t): no Schedule(t) call overlaps it (an overlapping Schedule may take effect after the
 \* Release, so the task may legitimately be scheduled when the Release returns)
@@ -40,7 +41,7 @@ TCall == /\ IsLine("call")
                           ELSE IF ln.op = "schedule" /\ pend[g].op = "release" /\ pend[g].t = ln.t THEN [pend[g] EXCEPT !.clean = FALSE]
                           ELSE pend[g]]
             /\ relRet' = IF ln.op = "schedule" THEN relRet \ {ln.t} ELSE relRet
-         /\ l' = l + 1 /\ UNCHANGED <<vars, lateT>>
+         /\ l' = l + 1 /\ UNCHANGED <<vars, lateT, ck>>
 
 \* the effect of a pending call (its critical section under s.mu)
 TLin(g) == /\ pend[g] # NoCall /\ ~pend[g].done
@@ -51,7 +52,7 @@ TLin(g) == /\ pend[g] # NoCall /\ ~pend[g].done
                  /\ pend' = [pend EXCEPT ![g].done = TRUE]
               \/ /\ p.op = "when" /\ UNCHANGED vars
                  /\ pend' = [pend EXCEPT ![g].done = TRUE, ![g].res = when]
-           /\ UNCHANGED <<l, relRet, lateT>>
+           /\ UNCHANGED <<l, relRet, lateT, ck>>
 
 TRet == /\ IsLine("ret")
         /\ LET ln == Trace[l]
@@ -60,44 +61,51 @@ TRet == /\ IsLine("ret")
               /\ (p.op = "when" => p.res = ln.v)
               /\ pend' = [pend EXCEPT ![ln.g] = NoCall]
               /\ relRet' = IF p.op = "release" /\ p.clean THEN relRet \cup {p.t} ELSE relRet
-        /\ l' = l + 1 /\ UNCHANGED <<vars, lateT>>
+        /\ l' = l + 1 /\ UNCHANGED <<vars, lateT, ck>>
 
 TAdd == /\ IsLine("add") /\ Advance
-        /\ l' = l + 1 /\ UNCHANGED <<pend, relRet, lateT>>
+        /\ l' = l + 1 /\ UNCHANGED <<pend, relRet, lateT, ck>>
 
 TRecv == /\ IsLine("recv")
          /\ \E w \in Workers : wk[w].st = "got" /\ wk[w].t = Trace[l].t /\ wk[w].sf = Trace[l].sf
-         /\ l' = l + 1 /\ UNCHANGED <<vars, pend, relRet, lateT>>
+         /\ l' = l + 1 /\ UNCHANGED <<vars, pend, relRet, lateT, ck>>
 
 TStart == /\ IsLine("start")
           /\ \E w \in Workers : /\ wk[w].st = "got" /\ wk[w].t = Trace[l].t /\ wk[w].sf = Trace[l].sf /\ wk[w].ra = Trace[l].ra
                                 /\ Start(w)
           /\ lateT' = IF Trace[l].t \in relRet THEN lateT \cup {<<Trace[l].t, Trace[l].sf>>} ELSE lateT
-          /\ l' = l + 1 /\ UNCHANGED <<pend, relRet>>
+          /\ l' = l + 1 /\ UNCHANGED <<pend, relRet, ck>>
 
 TEnd == /\ IsLine("end")
         /\ \E w \in Workers : wk[w].st = "exec" /\ wk[w].t = Trace[l].t /\ wk[w].sf = Trace[l].sf /\ Finish(w)
-        /\ l' = l + 1 /\ UNCHANGED <<pend, relRet, lateT>>
+        /\ l' = l + 1 /\ UNCHANGED <<pend, relRet, lateT, ck>>
 
-\* the checkpoint is the last thing a worker does before it blocks in its receive again
+\* the checkpoint is the last thing a worker does before it blocks in its receive again; it reaches the receive some time
+\* after the ckpt line (TReady), possibly while the loop is iterating over the due items (Pass with a cut)
 TCkpt == /\ IsLine("ckpt")
-         /\ \E w \in Workers : wk[w].st = "post" /\ wk[w].t = Trace[l].t /\ wk[w].sf = Trace[l].sf /\ Ready(w)
-         /\ l' = l + 1 /\ UNCHANGED <<pend, relRet, lateT>>
+         /\ \E w \in Workers : wk[w].st = "post" /\ w \notin ck /\ wk[w].t = Trace[l].t /\ wk[w].sf = Trace[l].sf /\ ck' = ck \cup {w}
+         /\ l' = l + 1 /\ UNCHANGED <<vars, pend, relRet, lateT>>
+TReady == \E w \in ck : Ready(w) /\ ck' = ck \ {w} /\ UNCHANGED <<l, pend, relRet, lateT>>
 
-TInternal == (TimerFire \/ LoopWake \/ Pass) /\ UNCHANGED tvars
+TInternal == \/ (TimerFire \/ LoopWake) /\ UNCHANGED tvars
+             \/ /\ Pass
+                /\ \A w \in Workers : (wk[w].st = "post" /\ wk'[w].st = "got") => w \in ck    \* only a worker that has checkpointed receives
+                /\ ck' = {w \in ck : wk'[w].st = "post"}
+                /\ UNCHANGED <<l, pend, relRet, lateT>>
+             \/ TReady
 
 \* end of one trace: the next trace starts from the initial state with its own profile
 TReset == /\ IsLine("reset")
           /\ \A g \in G : pend[g] = NoCall
           /\ IF l = Len(Trace)
-             THEN l' = l + 1 /\ UNCHANGED <<vars, pend, relRet, lateT>>
+             THEN l' = l + 1 /\ UNCHANGED <<vars, pend, relRet, lateT, ck>>
              ELSE /\ Trace[l + 1].ev = "prof"
                   /\ prof' = ProfOf(Trace[l + 1]) /\ now' = 0 /\ queue' = [t \in Tasks |-> NoItem]
                   /\ when' = None /\ timer' = None /\ tick' = FALSE /\ lpc' = "wait" /\ wk' = [w \in Workers |-> Idle]
                   /\ epoch' = [t \in Tasks |-> 0] /\ last' = [t \in Tasks |-> 0] /\ disp' = [t \in Tasks |-> 0]
                   /\ released' = {} /\ late' = {} /\ stale' = {} /\ spins' = 0 /\ calls' = 0 /\ nsched' = 0
                   /\ runs' = <<>> /\ hist' = <<>>
-                  /\ l' = l + 2 /\ pend' = pend /\ relRet' = {} /\ lateT' = {}
+                  /\ l' = l + 2 /\ pend' = pend /\ relRet' = {} /\ lateT' = {} /\ ck' = {}
 
 TNext == TCall \/ TRet \/ TAdd \/ TRecv \/ TStart \/ TEnd \/ TCkpt \/ TReset \/ TInternal \/ \E g \in G : TLin(g)
 TSpec == TInit /\ [][TNext]_allvars
